@@ -5,7 +5,8 @@ Open Scope string_scope.
 
 Inductive pkind := PParam | PReturn | PGen.      (* PGen: the function yielded at least once *)
 Record epos := EPos { e_name : string; e_kind : pkind; e_ty : ty; e_vals : list value; e_yields : list value }.
-Record e2ecase := E2ECase { e_k : nat; e_imports_ok : bool; e_hidden : bool; e_positions : list epos }.
+Record e2ecase := E2ECase { e_k : nat; e_imports_ok : bool; e_hidden : bool; e_td_collision : bool; e_positions : list epos }.
+(* e_td_collision: the stub defines two generated TypedDict classes under one name (C11's kf_hint_collision) *)
 (* e_hidden: some observed value's class lives in `builtins` under a name that cannot be looked up there (module,
    coroutine, dict_keys, list_iterator, ...): finding kf_hidden_builtin_type *)
 
@@ -38,6 +39,6 @@ Definition verdict_e2e (c : e2ecase) : nat :=
   match bad with
   | [] => if e_imports_ok c then 0 else if Nat.ltb 0 (e_k c) then 5 else 2
   | _ => if e_hidden c then 6
-         else if Nat.ltb 0 (e_k c) && forallb unresolved bad then 5 else 2
+         else if Nat.ltb 0 (e_k c) && (forallb unresolved bad || e_td_collision c) then 5 else 2
   end.
 End V.
